@@ -1,0 +1,11 @@
+//go:build verif && amd64 && gc && !purego
+
+package argon2
+
+import "golang.org/x/sys/cpu"
+
+// VerifC15HasAsm reports whether the assembly block function is compiled in.
+func VerifC15HasAsm() bool { return true }
+
+// VerifC15CPUHasSSE41 reports whether this CPU can run blamkaSSE4.
+func VerifC15CPUHasSSE41() bool { return cpu.X86.HasSSE41 }
